@@ -19,6 +19,7 @@ import (
 	"github.com/absfs/absnfs"
 	"pgregory.net/rapid"
 
+	"verif/harness/drv"
 	"verif/harness/nfsx"
 	"verif/harness/stat"
 	"verif/harness/vfs"
@@ -154,7 +155,7 @@ func modelVerdict(m *mtree, op c02Op) verdict {
 			return verdict{expOK, none}
 		}
 		return verdict{expFail, none}
-	case "setattr", "write", "read", "access":
+	case "setattr", "write", "read", "access", "mntattr":
 		return verdict{expEither, none} // only their attributes are judged (C04)
 	}
 	panic("unknown op " + op.Kind)
@@ -373,6 +374,9 @@ func (c *nsClient) hold(p string, fh []byte) {
 // violation description or nil.
 func (c *nsClient) exec(op c02Op) *nsViolation {
 	s := c.s
+	if op.Kind == "mntattr" {
+		return c.execMntAttr(op)
+	}
 	pre := c.v.Snapshot()
 	var mismatch bool
 	addr := op.Dir
@@ -640,6 +644,34 @@ func (c *nsClient) exec(op c02Op) *nsViolation {
 		}
 	}
 	return nil
+}
+
+// execMntAttr mounts op.Dir under one of several spellings of its path and reads the attributes through the
+// handle MNT returned: the same object, hence the same fileid and type as every other procedure reports (C04).
+func (c *nsClient) execMntAttr(op c02Op) *nsViolation {
+	d := c.m.get(op.Dir)
+	if d == nil || d.kind != 'd' {
+		return nil
+	}
+	p := op.Dir
+	var sp string
+	if p == "/" {
+		sp = []string{"/", "//", "/.", "/./", "/..", "///", "/"}[op.Len%7]
+	} else {
+		sp = []string{p, p + "/", "/" + p, p + "/.", "/." + p, p + "//", p + "/../" + path.Base(p)}[op.Len%7]
+	}
+	fh, st, err := c.s.e.Mount(drv.Root(), sp)
+	if err != nil || st != 0 || fh == nil {
+		c.labels["mnt_spelling_refused"] = true
+		return nil
+	}
+	res := c.s.nfs(nfsx.ProcGetattr, nfsx.ArgsFh(fh))
+	c.note("mntattr %s st=%d", p, res.Status)
+	if res.Status != nfsx.OK || c.attrs == nil {
+		return nil
+	}
+	c.labels["getattr_through_mnt_handle"] = true
+	return c.attrs.check(c, c02Op{Kind: "getattr", Dir: p}, res, nil, nil, false)
 }
 
 // runNsConfig executes ops under one cache configuration.
